@@ -61,6 +61,8 @@ type Engine struct {
 	consts          sync.Map // *ssa.Const -> Value
 	verbose         bool
 	modelsPkg       *ssa.Package
+	owners          map[*Cell]cellOwner
+	ownersN         int
 }
 
 type Interp struct {
@@ -77,6 +79,7 @@ type Interp struct {
 	lastPos    token.Pos
 	mapOrder   bool
 	onceDone   map[*Cell]bool
+	localGlobals map[*ssa.Global]*Cell // path-local copies of assigned globals
 }
 
 type outcome struct {
